@@ -960,7 +960,7 @@ def bump(h, k, n=1):
 
 
 def run(tier, rng):
-    n_con, n_text = (140, 80) if tier == 'quick' else (3200, 1800)
+    n_con, n_text = (140, 80) if tier == "quick" else (2000, 1000)
     cases = mk_cases(rng, n_con, n_text)
     violations = []
     hist = {'entries_per_ledger': {}, 'max_postings_per_transaction': {}, 'ledgers_with_directive_type': {},
